@@ -1100,6 +1100,10 @@ def MPC(phi: np.ndarray) -> float:
         MPC value, ranging between 0 and 1, where 1 indicates perfect collinearity.
     """
     S = np.cov(phi.real, phi.imag)
+    if S[0, 0] + S[1, 1] == 0:
+        # no scatter about the mean (all components equal): the shape is a multiple
+        # of a real vector, i.e. perfectly collinear (avoids 0/0 below)
+        return np.float64(1.0)
     lambd = np.linalg.eigvals(S)
     MPC = (lambd[0] - lambd[1]) ** 2 / (lambd[0] + lambd[1]) ** 2
     return MPC
